@@ -74,6 +74,11 @@ fn drive(args: &[String]) {
         }
     }
     let keep = mode == "single_keep";
+    // further builder options, each a separate code path in the generator: duplicate-item
+    // folding by name (first definition met wins), identifiers kept as written, a derive plugin
+    let dedup = mode == "single_dedup";
+    let nocase = mode == "single_nocase";
+    let serde = mode == "single_serde";
     let output = if mode.starts_with("workspace") {
         std::fs::File::create(out.join("Cargo.toml")).unwrap();
         pilota_build::Output::Workspace(out.clone())
@@ -96,6 +101,15 @@ fn drive(args: &[String]) {
             }
             if !touches.is_empty() {
                 b = b.touch(touches.clone());
+            }
+            if dedup {
+                b = b.dedup(["Common", "Kind", "Item"].into_iter().map(Into::into)).special_namings(["FOO"].into_iter().map(Into::into));
+            }
+            if nocase {
+                b = b.change_case(false);
+            }
+            if serde {
+                b = b.plugin(pilota_build::plugin::SerdePlugin).plugin(pilota_build::plugin::ImplDefaultPlugin);
             }
             if !inc.is_empty() {
                 b = b.include_dirs(inc);
@@ -243,7 +257,7 @@ fn corpora(scratch: &Path, tier_thorough: bool) -> Vec<Corpus> {
     let fam_dir = scratch.join("family");
     let n = if tier_thorough { 9 } else { 7 };
     let fam = print_family(&fam_dir, n);
-    v.push(Corpus { name: "family_all_entries".into(), source: "thrift", include: Some(fam_dir.clone()), entries: fam.clone(), modes: vec!["single", "split", "workspace", "workspace_split", "single_iu", "single_keep", "single_touch"] });
+    v.push(Corpus { name: "family_all_entries".into(), source: "thrift", include: Some(fam_dir.clone()), entries: fam.clone(), modes: vec!["single", "split", "workspace", "workspace_split", "single_iu", "single_keep", "single_touch", "single_dedup", "single_nocase", "single_serde"] });
     let pfam_dir = scratch.join("pfamily");
     let pfam = print_pfamily(&pfam_dir, if tier_thorough { 4 } else { 3 });
     v.push(Corpus { name: "pfamily_all_entries".into(), source: "protobuf", include: Some(pfam_dir), entries: pfam, modes: vec!["single", "split", "single_iu"] });
